@@ -168,3 +168,49 @@ fn verif_native_c10_tmerc_strip() {
     }
     assert!(fails.is_empty(), "C10.N.tmerc.strip: {} failures in {} evaluations, first: {:?}", fails.len(), n, &fails[..fails.len().min(3)]);
 }
+
+//@n {"id":"C10.N.domain","props":["C10"],"tier":"quick","bound":"declared domain limits of the plane projections, each probed by one or two tuples between two valid neighbours in a 3- or 4-tuple set: the pole opposite the apex of a Lambert cone (northern and southern cones, 1SP and 2SP); positions beyond the laea disc (inverse); eastings beyond the transverse Mercator strip (inverse, with and without false easting)","text":"a tuple beyond a declared domain limit is overwritten with NaN (both plane elements) and not counted, while its neighbours in the same set are transformed and counted, and the count equals the number of tuples inside the domain"}
+#[test]
+fn verif_native_c10_domain() {
+    let mut ctx = Minimal::default();
+    let g = |lat: f64, lon: f64| Coor4D::geo(lat, lon, 12.0, 2001.0);
+    let p = |x: f64, y: f64| Coor4D([x, y, 12.0, 2001.0]);
+    // (definition, direction, valid neighbour, tuples beyond the limit)
+    let cases: Vec<(&str, Direction, Coor4D, Vec<Coor4D>)> = vec![
+        ("lcc lat_1=33 lat_2=45 lat_0=35 lon_0=10", Fwd, g(40.0, 12.0), vec![g(-90.0, 12.0), g(-90.0, -100.0)]),
+        ("lcc lat_1=-33 lat_2=-45 lat_0=-35 lon_0=10", Fwd, g(-40.0, 12.0), vec![g(90.0, 12.0)]),
+        ("lcc lat_1=57 lon_0=12", Fwd, g(57.0, 12.0), vec![g(-90.0, 0.0)]),
+        ("lcc lat_1=-30 lon_0=140 k_0=0.999", Fwd, g(-30.0, 141.0), vec![g(90.0, 0.0)]),
+        ("laea lat_0=52 lon_0=10 x_0=4321000 y_0=3210000", Inv, p(4321000.0, 3210000.0), vec![p(4321000.0 + 1.4e7, 3210000.0), p(4321000.0, 3210000.0 - 2.0e7)]),
+        ("laea lat_0=90", Inv, p(1000.0, -2000.0), vec![p(1.4e7, 0.0)]),
+        ("laea", Inv, p(1000.0, -2000.0), vec![p(0.0, 1.3e7)]),
+        ("tmerc lon_0=9", Inv, p(100000.0, 6.0e6), vec![p(1.75e7, 6.0e6), p(-1.75e7, 0.0)]),
+        ("utm zone=32", Inv, p(600000.0, 6.0e6), vec![p(500000.0 + 1.75e7, 6.0e6)]),
+    ];
+    let mut fails: Vec<String> = Vec::new();
+    let mut ids: Vec<String> = Vec::new();
+    let mut n = 0;
+    for (ci, (def, dir, good, beyond)) in cases.iter().enumerate() {
+        let op = match ctx.op(def) {
+            Ok(op) => op,
+            Err(e) => {
+                ids.push(format!("{ci}new"));
+                fails.push(format!("`{def}`: {e:?}"));
+                continue;
+            }
+        };
+        let d = if *dir == Fwd { "F" } else { "I" };
+        for (bi, b) in beyond.iter().enumerate() {
+            let mut set = vec![*good, *b, *good];
+            let r = ctx.apply(op, if d == "F" { Fwd } else { Inv }, &mut set).unwrap();
+            n += 1;
+            let stomped = set[1][0].is_nan() && set[1][1].is_nan();
+            let neighbours = clean(&set[0], 4) && clean(&set[2], 4) && (0..4).all(|k| set[0][k].to_bits() == set[2][k].to_bits());
+            if !(r == 2 && stomped && neighbours) {
+                ids.push(format!("{ci}.{bi}{d}"));
+                fails.push(format!("`{def}` {d} on [inside, {:?}, inside]: count {r}, result {:?}", b, set));
+            }
+        }
+    }
+    assert!(fails.is_empty(), "C10.N.domain: FAILSET{{{}}} {} of {} probes wrong, first: {:?}", ids.join(","), fails.len(), n, &fails[..fails.len().min(4)]);
+}
